@@ -138,6 +138,68 @@ pub fn c08_symdiff_fold<const N: usize, const M: usize>() {
     fold_checks!(a.symmetric_difference(&b), Op::Sym, am, bm, N + M);
 }
 
+/// provided methods of the lazy iterators (an implementation may override them): nth / last / count / min / max against
+/// plain stepping of a clone, after a symbolic prefix
+macro_rules! lazy_provided {
+    ($mk:expr, $cap:expr) => {{
+        let (j, k, which) = (vf::any_usize(), vf::any_usize(), vf::any_u8());
+        vf::assume(which < 4 && k <= $cap);
+        let mut a = $mk;
+        let mut i = 0usize;
+        while i < $cap { if i < j { let _ = a.next(); } i += 1; }
+        let mut b = a.clone();
+        match which {
+            0 => {
+                vf::reach(1);
+                let x = a.nth(k).map(|r| r as *const u8 as usize);
+                let mut i = 0usize;
+                while i < $cap { if i < k { let _ = b.next(); } i += 1; }
+                let y = b.next().map(|r| r as *const u8 as usize);
+                vf::check(x == y, 812);
+                let mut i = 0usize;
+                while i <= $cap { vf::check(a.next().map(|r| r as *const u8 as usize) == b.next().map(|r| r as *const u8 as usize), 812); i += 1; }
+            }
+            1 => {
+                vf::reach(2);
+                let x = a.last().map(|r| r as *const u8 as usize);
+                let mut y = None;
+                let mut i = 0usize;
+                while i <= $cap { if let Some(r) = b.next() { y = Some(r as *const u8 as usize); } i += 1; }
+                vf::check(x == y, 812);
+            }
+            2 => {
+                vf::reach(3);
+                let c = a.count();
+                let mut n = 0usize;
+                let mut i = 0usize;
+                while i <= $cap { if b.next().is_some() { n += 1; } i += 1; }
+                vf::check(c == n, 806);
+            }
+            _ => {
+                vf::reach(4);
+                let (mx, mn) = (a.clone().max().copied(), a.min().copied());
+                let (mut wx, mut wn): (Option<u8>, Option<u8>) = (None, None);
+                let mut i = 0usize;
+                while i <= $cap {
+                    if let Some(r) = b.next() { wx = Some(match wx { Some(m) if m > *r => m, _ => *r }); wn = Some(match wn { Some(m) if m < *r => m, _ => *r }); }
+                    i += 1;
+                }
+                vf::check(mx == wx && mn == wn, 812);
+            }
+        }
+    }};
+}
+pub fn c08_provided<const N: usize, const M: usize, const OP: u8>() {
+    let (a, _am) = any_u8_set::<N>();
+    let (b, _bm) = any_u8_set::<M>();
+    match OP {
+        0 => lazy_provided!(a.union(&b), N + M),
+        1 => lazy_provided!(a.intersection(&b), N + M),
+        2 => lazy_provided!(a.difference(&b), N + M),
+        _ => lazy_provided!(a.symmetric_difference(&b), N + M),
+    }
+}
+
 /// `&a - &b` builds a new set equal to the difference
 pub fn c08_sub<const N: usize, const M: usize>() {
     let (a, am) = any_u8_set::<N>();
@@ -249,8 +311,8 @@ pub fn c14_map<const N: usize, const M: usize>() {
     let want = model_eq(&am, &bm, true);
     vf::check((a == b) == want, 820);
     vf::check((b == a) == want, 821);
-    vf::check((a != b) == !want, 820);
-    vf::check(a == a && b == b, 822);
+    vf::check((a != b) == !want && (b != a) == !want, 820);
+    vf::check(a == a && b == b && !(a != a), 822);
     if want { vf::reach(1); } else { vf::reach(2); }
     same_u8_map(&a, &am);
     same_u8_map(&b, &bm);
@@ -261,6 +323,7 @@ pub fn c14_set<const N: usize, const M: usize>() {
     let want = model_eq(&am, &bm, false);
     vf::check((a == b) == want, 820);
     vf::check((b == a) == want, 821);
+    vf::check((a != b) == !want && (b != a) == !want, 820);
     vf::check(a == a && b == b, 822);
     if want { vf::reach(1); } else { vf::reach(2); }
     same_u8_set(&a, &am);
@@ -276,6 +339,7 @@ harnesses! {
     c08_intersection_fold: [0, 0] [1, 1] [2, 2] [3, 3] [1, 3] [3, 1] [0, 2] [2, 0];
     c08_difference_fold: [0, 0] [1, 1] [2, 2] [3, 3] [1, 3] [3, 1] [0, 2] [2, 0];
     c08_symdiff_fold: [0, 0] [1, 1] [2, 2] [3, 3] [1, 3] [3, 1] [0, 2] [2, 0];
+    c08_provided: [2, 2, 0] [2, 2, 1] [2, 2, 2] [2, 2, 3] [1, 2, 0] [2, 1, 1] [2, 1, 2] [1, 2, 3];
     c08_sub: [0, 0] [1, 1] [2, 2] [3, 3] [1, 3] [3, 1];
     c08_difference_ref: [1, 1] [2, 2] [3, 2] [2, 3];
     c08_predicates: [0, 0] [1, 1] [2, 2] [3, 3] [1, 3] [3, 1] [0, 2] [2, 0];
@@ -290,6 +354,7 @@ harnesses! {
     c08_intersection_fold: [4, 4] [4, 2] [2, 4];
     c08_difference_fold: [4, 4] [4, 2] [2, 4];
     c08_symdiff_fold: [4, 4] [4, 2] [2, 4];
+    c08_provided: [3, 3, 0] [3, 3, 1] [3, 3, 2] [3, 2, 3];
     c08_sub: [4, 4] [4, 2] [2, 4];
     c08_difference_ref: [3, 3] [4, 2];
     c08_predicates: [4, 4] [4, 2] [2, 4];
